@@ -58,6 +58,8 @@ func main() {
 		}
 		if *dumpSt == "funcs" {
 			dumpFuncs(c)
+		} else if *dumpSt == "wire" {
+			dumpWire(c)
 		} else {
 			dumpStructs(c)
 		}
